@@ -61,6 +61,8 @@ def verify_target(target, timeout_ms=10000, both=False):
             rep = vcgen.verify_function(make_ctx, reg, name, timeout_ms=timeout_ms, both=both)
         elif kind == "lemma":
             rep = vcgen.verify_lemma(make_ctx, reg, name, timeout_ms=timeout_ms)
+        elif kind == "frame":
+            rep = vcgen.verify_frame(make_ctx, reg, name, timeout_ms=timeout_ms)
         elif kind == "rel":
             from . import relational
             rep = relational.verify_relational(make_ctx, reg, name, timeout_ms=timeout_ms)
@@ -83,7 +85,7 @@ def report_dict(rep):
             "goal": (ob.goal.sexpr()[:600] if hasattr(ob.goal, "sexpr") else str(ob.goal)),
             "cross": getattr(ob, "cross", None),
         })
-    return {"target": [rep.kind if rep.kind != "function" else "fn", rep.qualname.replace("lemma:", "")],
+    return {"target": [rep.kind if rep.kind != "function" else "fn", rep.qualname.split(":", 1)[-1] if rep.kind != "function" else rep.qualname],
             "qualname": rep.qualname, "kind": rep.kind, "paths": rep.paths, "obligations": obs,
             "undecided": rep.undecided, "time": round(rep.time, 3), "notes": sorted(rep.notes),
             "assumed": sorted(rep.assumed), "file": rep.file, "sha": rep.sha, "lines": rep.lines,
